@@ -437,6 +437,9 @@ def run_plan(ctx, prop, parts, rule, assumptions, kf_what=None, vacuity=None):
     if not tot:
         raise par.HarnessError("empty plan")
     truncated = bool(tot.get("truncated"))
+    planned = sum(sh["hi"] - sh["lo"] for sh in shards)
+    if not truncated and tot["structures"] != planned:
+        raise par.HarnessError("%s: %d structures explored, %d planned" % (prop, tot["structures"], planned))
     if vacuity and not tot.get("violations"):
         vacuity(tot)
     known = tot.get("known", {})
